@@ -14,6 +14,7 @@ _LEVEL = ('Static necessary-condition checking: each rule is exact on its struct
           'claimed are those whose truth is visible in the shape of the code.')
 
 RULEDOC = {
+ 'SA-STR.ext': 'the mangler keeps every extension length the acceptance predicate admits at the level (3 at level 1, up to the combined 30 at levels 2 and 3)',
  'SA-COORD.seekwrite': 'a record() written after a seek to X.extent_location() is the record of X (or of a part of X)',
  'SA-SIB.tool_views': "a tool call that acts on one view of the image (joliet / udf keyword only) is guarded by that view's own path and hide switches",
  'SA-ALIAS.restore': 'a container attribute saved in a local and assigned back later was saved as a copy (an alias restores nothing)',
